@@ -456,7 +456,7 @@ def obligations(tier):
         cut = LoopCut(_p2.parafac2)
         out = []
         real_cp = _p2._compute_projections
-        def proj_stub(tensor_slices, factors, svd):
+        def proj_stub(tensor_slices, factors, svd, **kw):
             if S.name == "sym":
                 return [G.opaque_tensor("PROJ", [ts.shape[0], factors[0].shape[1]], ts.dtype, ortho_axis=0) for ts in tensor_slices]
             r = real_cp(tensor_slices, factors, svd)
